@@ -710,12 +710,23 @@ func c10Translations(c *vk.Ctx) {
 					ops = append(ops, c10op{Op: "language", Lang: l})
 					return ""
 				}
+				resOp := map[uint8]string{db.DATATYPE_TEMPLATE: "res-template", db.DATATYPE_STATICLOAD: "res-func"}[typ]
 				for _, st := range steps {
 					cl := setLang(st.lang)
 					ops = append(ops, c10op{Op: "put", Key: "greeting", Val: []byte(st.val), Ctx: cl})
 					for _, rl := range []string{"nor", "", "swa"} {
 						cl := setLang(rl)
 						ops = append(ops, c10op{Op: "get", Key: "greeting", Ctx: cl})
+					}
+					if resOp != "" && code%4 == 0 {
+						// the same reads through one long-lived resource.DbResource (the store locked again, as a resource
+						// needs it): what was written last is what it returns
+						ops = append(ops, c10op{Op: "lock", Typ: typ, Lock: true})
+						for _, rl := range []string{"nor", "", "swa"} {
+							cl := setLang(rl)
+							ops = append(ops, c10op{Op: resOp, Key: "greeting", Ctx: cl})
+						}
+						ops = append(ops, c10op{Op: "lock", Typ: typ, Lock: false}, c10op{Op: "prefix", Typ: typ})
 					}
 				}
 				c.Begin(key)
